@@ -311,3 +311,73 @@ func zzH_C17d() {
 	c.Close()
 	vReach("end")
 }
+
+// zzH_C17p: LeastTime on a Client whose live list and heap were built by the real detector (check):
+// n = 2 or 3 stable live targets with latency estimates in every order, then a sequence of calls each
+// of which is a probe (the Tick has elapsed) or not. Probes rotate over the live targets (any n
+// consecutive probes hit n distinct targets) and every other call goes to a target whose estimate
+// is minimal at that moment.
+func zzH_C17p() {
+	n := 2 + vChoose("n", vParam("c17p.ns", 2))
+	names := []string{"a", "b", "c"}[:n]
+	rt := &zzRT{up: map[string]bool{"a": true, "b": true, "c": true}}
+	c := NewClient(nil)
+	c.Transport = rt
+	c.Scheduling = LeastTimeScheduling
+	vSetClockStep(1)
+	vSetTimerBudget(1)
+	c.Update(names...)
+	vQuiesce()
+	if len(c.list) != n {
+		return // the detector has not found every target on this schedule
+	}
+	// estimates in a chosen order (distinct values; the order need not be the list order)
+	perm := [][]int64{{10, 20, 30}, {20, 10, 30}, {30, 20, 10}, {10, 30, 20}, {20, 30, 10}, {30, 10, 20}}[vChoose("latency-order", 6)]
+	for i, a := range names {
+		c.targets[a].latency = perm[i] * 1000
+	}
+	var probes []string
+	K := vParam("c17p.K", 4)
+	for i := 0; i < K; i++ {
+		probe := vChoose("probe", 2) == 1
+		c.lock.Lock()
+		if probe {
+			c.lastTime = time.Time{} // long ago: the Tick has elapsed
+		} else {
+			c.lastTime = time.Now().Add(time.Hour) // a probe has just happened
+		}
+		min := int64(-1)
+		est := map[string]int64{}
+		for _, a := range names {
+			l := c.targets[a].latency
+			est[a] = l
+			if min < 0 || l < min {
+				min = l
+			}
+		}
+		c.lock.Unlock()
+		before := len(rt.calls)
+		err := c.Call("S.M", nil, nil)
+		vAssert(err == nil && len(rt.calls) == before+1, "call-routed-at-once-when-targets-are-live")
+		if len(rt.calls) != before+1 {
+			return
+		}
+		to := rt.calls[before]
+		if probe {
+			probes = append(probes, to)
+		} else {
+			// the estimate the call was routed by (its own completion has updated it since: compare
+			// against the minimum taken before the call)
+			vAssert(est[to] == min, "least-time-picks-minimal-estimate")
+		}
+	}
+	for i := 0; i+n <= len(probes); i++ {
+		seen := map[string]bool{}
+		for _, p := range probes[i : i+n] {
+			seen[p] = true
+		}
+		vAssert(len(seen) == n, "least-time-probes-rotate")
+	}
+	c.Close()
+	vReach("end")
+}
